@@ -208,15 +208,6 @@ Theorem dual_proof_sound_wrt_history hs p src tgt salh sh th tg :
   (exists g, tx_at hs src = Some g /\ hashed_fields sh = hashed_fields g /\ salh = alh_v H g) \/ Collision.
 Proof. unfold verify_dual_proof. apply dual_proof_gen_sound_wrt_history. Qed.
 
-Theorem dual_proof_repaired_sound_wrt_history hs p src tgt salh sh th tg :
-  wf_hist H hs ->
-  tx_at hs tgt = Some tg ->
-  dp_src p = Some sh -> dp_tgt p = Some th -> hdr_valid sh = true -> hdr_valid th = true ->
-  len32 (dp_incl p) ->
-  verify_dual_proof_gen H true (Some p) src tgt salh (alh_v H tg) = Ok true ->
-  (exists g, tx_at hs src = Some g /\ hashed_fields sh = hashed_fields g /\ salh = alh_v H g) \/ Collision.
-Proof. apply dual_proof_gen_sound_wrt_history. Qed.
-
 (* TAMPER EVIDENCE, VerifyDualProofV2 (sourceTxID < targetTxID; for sourceTxID = targetTxID the
    verifier compares neither the two headers nor the two Alh values with each other, see
    Proofs/Refuted.v dual_proof_v2_same_id_refuted) *)
